@@ -44,7 +44,7 @@ class C13(runner.Check):
             'probe.cmaes-generation-boundary', 'probe.infeasible-trial-fed', 'probe.depth.direct',
             'probe.depth.policy', 'probe.depth.service', 'probe.grid-fully-covered', 'probe.exhaustive-subsets', 'probe.out-of-order-completions',
             'probe.suggest-without-new-completions', 'probe.update-refused-by-both',
-            'probe.prior-life-of-the-study-name']
+            'probe.prior-life-of-the-study-name', 'probe.infinite-objective-fed', 'probe.nsga2-offspring-lineage-compared', 'probe.eagle-pool-shrank-after-being-full']
 
   def gen(self, rng, idx, tier):
     depth = rng.choice(['direct'] * 5 + ['policy'] * 3 + ['service'] * 2)
@@ -78,17 +78,30 @@ class C13(runner.Check):
       if depth == 'service':
         sets = sets[:1] + sets[2:]
     seed = rng.randrange(1, 10**6) if rng.random() < 0.85 else rng.choice([0, 0, 1, 2**31 - 1])
+    marathon = rng.random() < (0.012 if tier == 'quick' else 0.03)
+    if marathon:
+      # a long study: phases that only come late (eagle removes exhausted flies from a full pool and
+      # refills it from its initial designer after ~650 trials), with one restart while the pool is full
+      name, space, depth = 'eagle', 'f2', 'direct'
+      batches = [5] * 140
+      n = len(batches)
+      sets = [[rng.randrange(10, 60)], sorted(rng.sample(range(10, 130), 3))]
+      exhaustive = False
     return {'designer': name, 'space': space, 'seed': seed, 'depth': depth,
-            'order': rng.choice(['in-order', 'in-order', 'reversed', 'shuffled', 'shuffled', 'delayed']),
+            'marathon': marathon,
+            'order': 'in-order' if marathon else rng.choice(['in-order', 'in-order', 'reversed', 'shuffled', 'shuffled', 'delayed']),
             'order_seed': rng.randrange(10**6),
             # per step: 0 = every trial of the step is completed before the next suggest, 1 = one is left
             # pending, 2 = all are left pending (the next suggest incorporates nothing new); pending trials
             # are completed at the next step that is not 2
-            'hold': [rng.choice([0, 0, 0, 0, 1, 2, 2]) for _ in range(n)] if rng.random() < 0.4 else [0] * n,
+            'hold': [rng.choice([0, 0, 0, 0, 1, 2, 2]) for _ in range(n)] if (rng.random() < 0.4 and not marathon) else [0] * n,
             'batches': batches, 'restart_sets': sets, 'exhaustive': exhaustive,
             # NSGA-II refuses infeasible trials on this tree (KeyError): then both twins must refuse alike
             'infeasible_mod': rng.choice([0, 0, 4, 5]) if name != 'nsga2' else (rng.choice([0, 0, 0, 5, 7]) if depth == 'direct' else 0),
             'metrics': 2 if (name == 'nsga2' and rng.random() < 0.5) else 1,
+            # a diverged evaluation reports +inf / -inf (legal floats): every k-th trial, direct depth, designers
+            # that keep objective values in their persisted state
+            'inf_mod': rng.choice([0, 0, 3, 4]) if (name in ('nsga2', 'cmaes') and depth == 'direct') else 0,
             # service depth, restarted run only: a study of the same name lived (this many suggest+complete
             # rounds) and was deleted before; a new study must not inherit anything from it
             'prior_life': rng.choice([0, 0, 1, 2, 3]) if depth == 'service' else 0,
@@ -115,6 +128,8 @@ class C13(runner.Check):
         yield dict(plan, batches=plan['batches'][:i] + [1] + plan['batches'][i + 1:])
     if plan.get('infeasible_mod'):
       yield dict(plan, infeasible_mod=0)
+    if plan.get('inf_mod'):
+      yield dict(plan, inf_mod=0)
     if plan.get('prior_life', 0) > 1:
       yield dict(plan, prior_life=1)
     if any(plan.get('hold') or []):
@@ -174,6 +189,7 @@ class C13(runner.Check):
       B = twin.make(name, prob, seed)
       tid = 0
       carry = []
+      pool_was_full = False
       for step, count in enumerate(plan['batches']):
         clk.advance(plan['advance'][step])
         if step in restarts:
@@ -199,6 +215,13 @@ class C13(runner.Check):
           if pa != pb:
             viol.append(('phase-differs-after-restart', f'step {step}: live instance is in the {"mutation" if pa else "sampling"} phase, restarted one in the {"mutation" if pb else "sampling"} phase'))
             break
+          if pa:
+            la, lb = [twin.lineage(s) for s in sa], [twin.lineage(s) for s in sb]
+            res.bump('probe.nsga2-offspring-lineage-compared')
+            if la != lb:
+              viol.append(('offspring-lineage-differs-after-restart',
+                           f'step {step}: the live instance breeds from population members {la[:3]}, the restarted one from {lb[:3]}'))
+              break
         trials = list(carry)
         carry = []
         for s in sa:
@@ -206,7 +229,11 @@ class C13(runner.Check):
           inf = self._infeasible(plan, tid)
           if inf:
             res.bump('probe.infeasible-trial-fed')
-          trials.append(twin.complete(s, tid, infeasible=inf, metrics=plan.get('metrics', 1)))
+          value = None
+          if plan.get('inf_mod') and tid % plan['inf_mod'] == 1 and not inf:
+            value = float('inf') if (tid // plan['inf_mod']) % 2 == 0 else float('-inf')
+            res.bump('probe.infinite-objective-fed')
+          trials.append(twin.complete(s, tid, infeasible=inf, metrics=plan.get('metrics', 1), value=value))
         # Completions reach the algorithm in another order than suggested, or late.
         order = plan.get('order', 'in-order')
         if order == 'reversed':
@@ -246,6 +273,10 @@ class C13(runner.Check):
           pool = getattr(A, '_firefly_pool', None)
           if getattr(pool, 'size', 0) >= getattr(pool, 'capacity', 1 << 30):
             res.bump('probe.eagle-pool-full')
+            pool_was_full = True
+          elif pool_was_full:
+            res.bump('probe.eagle-pool-shrank-after-being-full')
+            pool_was_full = False
         self._state_checks(name, A, B, step, viol, res)
         if viol:
           break
